@@ -5,6 +5,7 @@ import (
 	"strings"
 
 	"github.com/koykov/dyntpl"
+	"github.com/koykov/x2bytes"
 )
 
 // Serialisation of the real parser's tree (dyntpl.VerifNode) into a Gallina [node] term.
@@ -120,12 +121,13 @@ func errCode(o Obs) int {
 	if o.Err == "" {
 		return 0
 	}
+	// by the library's own error values (a reworded message changes nothing here)
 	m := map[string]int{
-		"unknown ctl": 1, "comparison of two static args": 2, "condition helper not found": 3, "template not found": 4,
-		"tpl processing interrupted": 5, "empty arguments list": 6, "arguments list is too small": 7, "argument is not string or bytes": 8,
-		"wrong count loop limit argument": 9, "wrong loop condition operation": 10, "wrong loop operation": 11,
-		"break loop": 12, "lazybreak loop": 13, "continue loop": 14, "unknown type": 15,
-		errInjected.Error(): 16, "unknown pool": 19, errVFail.Error(): 20,
+		dyntpl.ErrUnknownCtl.Error(): 1, dyntpl.ErrSenselessCond.Error(): 2, dyntpl.ErrCondHlpNotFound.Error(): 3, dyntpl.ErrTplNotFound.Error(): 4,
+		dyntpl.ErrInterrupt.Error(): 5, dyntpl.ErrModNoArgs.Error(): 6, dyntpl.ErrModPoorArgs.Error(): 7, dyntpl.ErrModNoStr.Error(): 8,
+		dyntpl.ErrWrongLoopLim.Error(): 9, dyntpl.ErrWrongLoopCond.Error(): 10, dyntpl.ErrWrongLoopOp.Error(): 11,
+		dyntpl.ErrBreakLoop.Error(): 12, dyntpl.ErrLBreakLoop.Error(): 13, dyntpl.ErrContLoop.Error(): 14, x2bytes.ErrUnknownType.Error(): 15,
+		errInjected.Error(): 16, dyntpl.ErrUnknownPool.Error(): 19, errVFail.Error(): 20,
 	}
 	if c, ok := m[o.Err]; ok {
 		return c
